@@ -1,7 +1,19 @@
 import Hs.Drv.Zinc
+import Hs.Spec.ZincRead
 namespace Hs.Drv.C04
+open Hs Hs.Vx
 
-/-- requests `C04 <cmd> ...`: the shared Zinc requests (`enc`, `dec`, …) -/
-def handle (ts : List String) : String := Hs.Drv.Zinc.handle ts
+/-- `read H(text)` → the reference reader's value: `ok V` | `err`; other requests: shared Zinc requests -/
+def handle (ts : List String) : String :=
+  match ts with
+  | [cmd, h] =>
+    if cmd = "read" then
+      match bytesOfHex h with
+      | some bs => match Hs.Spec.read bs with
+        | some v => "ok " ++ showVal v
+        | none => "err"
+      | none => "bad-request"
+    else Hs.Drv.Zinc.handle ts
+  | _ => Hs.Drv.Zinc.handle ts
 
 end Hs.Drv.C04
